@@ -95,8 +95,8 @@ Theorem imp_traverse fuel pre t l : (2 * size t + 2 < fuel)%nat ->
   imp_newick_Node_traverse fuel (node_of t) pre = Ret (map nd l).
 Proof.
   intros Hf Ht. unfold traverse in Ht. unfold imp_newick_Node_traverse. cbv zeta.
-  change (go_while fuel _ _ ([Imp_newick_traversalStep (node_of t) 0], []))
-    with (go_while fuel tr_cond (tr_body pre) (rev (map step_of [(([] : path), t, O)]), map nd (rev []))).
+  timeout 120 (change (go_while fuel _ _ ([Imp_newick_traversalStep (node_of t) 0], []))
+    with (go_while fuel tr_cond (tr_body pre) (rev (map step_of [(([] : path), t, O)]), map nd (rev [])))).
   rewrite (tr_loop pre _ fuel _ _ _ Ht Hf). reflexivity.
 Qed.
 
@@ -159,8 +159,8 @@ Proof.
   - replace (0 <? go_len (map node_of (c0 :: cr))) with true by (unfold go_len; cbn [map length]; lia).
     unfold go_range, indexed. rewrite map_length. cbn [length map]. rewrite zseq_cons. cbn [combine go_iter fst snd].
     cbn [Z.ltb Z.compare]. rewrite (Hkids c0 _ (or_introl eq_refl)). cbn [go_call].
-    change (go_iter _ (combine (zseq (0 + 1) (length cr)) (map node_of cr)) ?b)
-      with (go_iter (kids_body fuel) (combine (zseq (0 + 1) (length cr)) (map node_of cr)) b).
+    timeout 120 (change (go_iter _ (combine (zseq (0 + 1) (length cr)) (map node_of cr)) ?b)
+      with (go_iter (kids_body fuel) (combine (zseq (0 + 1) (length cr)) (map node_of cr)) b)).
     rewrite (kids_rest fuel cr (0 + 1)) by (first [lia | intros c' b' H'; apply Hkids; right; exact H']).
     cbn [after].
     destruct (is_zeroF d); cbn [negb]; rewrite ?app_nil_r; repeat (rewrite <- ?app_assoc; cbn [app]); reflexivity.
